@@ -374,6 +374,14 @@ outer_loop:
 			}
 		}
 
+		if r := l.peek(); r != eof {
+			// Nothing the language knows starts with this character. (Leaving the tag here
+			// without a word would turn the rest of it into literal text and let the parser
+			// take the tokens up to the end of the NEXT tag for this tag's arguments.)
+			l.errorf("Unexpected character %q in tag/variable.", r)
+			return nil
+		}
+
 		break
 	}
 
